@@ -197,6 +197,13 @@ func (fr *Frame) localAt(l *Loop, name string) (ssa.Value, bool) {
 // has when block b is entered... more precisely: the latest definition recorded
 // by a DebugRef in b itself or in a block that dominates b.
 func (fr *Frame) localAtBlock(b *ssa.BasicBlock, name string) (ssa.Value, bool) {
+	return fr.localBefore(b, len(b.Instrs), name)
+}
+
+// localBefore is localAtBlock restricted, within b itself, to the definitions
+// recorded before instruction index limit (the value the variable has when that
+// instruction executes).
+func (fr *Frame) localBefore(b *ssa.BasicBlock, limit int, name string) (ssa.Value, bool) {
 	for _, p := range fr.fn.Params {
 		if p.Name() == name {
 			return p, true
@@ -210,6 +217,9 @@ func (fr *Frame) localAtBlock(b *ssa.BasicBlock, name string) (ssa.Value, bool) 
 			continue
 		}
 		for i, ins := range blk.Instrs {
+			if blk == b && i >= limit {
+				break
+			}
 			d, ok := ins.(*ssa.DebugRef)
 			if !ok || d.IsAddr {
 				continue
@@ -303,15 +313,7 @@ func (fr *Frame) enterLoop(b *ssa.BasicBlock, st *State, reach string, entryPhi 
 	if l.mods == nil {
 		l.mods = vc.eng.loopMods(fr.fn, l)
 	}
-	if l.mods.all {
-		vc.havocAll(st)
-	} else {
-		for _, k := range l.mods.keys() {
-			vc.registerKey(k)
-			vc.havocHeap(st, k, "", nil)
-		}
-		vc.bumpNext(st)
-	}
+	vc.havocMods(st, l.mods)
 	for _, phi := range phis {
 		t := phi.Type()
 		ev := entryVals[phi]
